@@ -478,8 +478,22 @@ where
 {
     let plain: Prio3<T, XofTurboShake128, 32> = Prio3::new(inst.n, inst.proofs, alg, typ.clone()).map_err(|e| e.to_string())?;
     let sim: Prio3<T, SimXof, 32> = Prio3::new(inst.n, inst.proofs, alg, typ).map_err(|e| e.to_string())?;
-    let (p0, s0) = plain.shard_with_random(c, &meas, nonce, rand).map_err(|e| e.to_string())?;
-    let want = full_run(&plain, c, vk, nonce, &(), &p0, &s0)?;
+    // the reference run with the unmodified XOF: an honest in-range report must go through
+    let reference = guard("Prio3 honest reference run", || -> Result<String, String> {
+        let (p0, s0) = plain.shard_with_random(c, &meas, nonce, rand).map_err(|e| format!("shard: {e}"))?;
+        full_run(&plain, c, vk, nonce, &(), &p0, &s0)
+    });
+    let want = match reference {
+        Ok(Ok(w)) => w,
+        Ok(Err(e)) => {
+            ctx.fail(Violation::new("C11.reference_run", format!("prio3|{}", inst.class), format!("Prio3 {} ({:?}): an honest in-range report does not go through with the unmodified XOF: {e}", inst.class, inst)));
+            return Ok(());
+        }
+        Err(v) => {
+            ctx.fail(v);
+            return Ok(());
+        }
+    };
     let fs = <T::Field as FieldElement>::ENCODED_SIZE;
     sim_xof::install(XofCfg { tape: vec![], inject: Some((usage, insertions(inserts, fs))), ..Default::default() });
     let r = guard("Prio3<SimXof> honest run with spliced rejections", || -> Result<String, String> {
@@ -586,8 +600,21 @@ fn exec(p: &Plan11, ctx: &mut Ctx) -> Result<(), String> {
                     let input = crate::inst_poplar::bits_to_input(meas);
                     let l = 1 + *plen as usize % len;
                     let ap = prio::vdaf::poplar1::Poplar1AggregationParam::try_from_prefixes(vec![input.prefix(l - 1)]).map_err(|e| e.to_string())?;
-                    let (p0, s0) = plain.shard_with_random(&c.0, &input, &n16, &rand.0).map_err(|e| e.to_string())?;
-                    let want = full_run(&plain, &c.0, &k32, &n16, &ap, &p0, &s0)?;
+                    let reference = guard("Poplar1 honest reference run", || -> Result<String, String> {
+                        let (p0, s0) = plain.shard_with_random(&c.0, &input, &n16, &rand.0).map_err(|e| format!("shard: {e}"))?;
+                        full_run(&plain, &c.0, &k32, &n16, &ap, &p0, &s0)
+                    });
+                    let want = match reference {
+                        Ok(Ok(w)) => w,
+                        Ok(Err(e)) => {
+                            ctx.fail(Violation::new("C11.reference_run", "poplar1".to_string(), format!("Poplar1 (bits {len}, prefix length {l}): an honest report does not go through with the unmodified XOF: {e}")));
+                            return Ok(());
+                        }
+                        Err(v) => {
+                            ctx.fail(v);
+                            return Ok(());
+                        }
+                    };
                     // element size of the spliced chunks: leaf-field streams are 32-byte chunks
                     let fs = if *usage == 3 || (*usage == 4 && l == len) { 32 } else { 8 };
                     sim_xof::install(XofCfg { tape: vec![], inject: Some((*usage, insertions(inserts, fs))), ..Default::default() });
